@@ -49,12 +49,24 @@ KRows == [part : {"kb"},
           signed_by : {"holder_key", "other_key_of_holder", "foreign_key"},
           sd_hash : {"right", "over_other_disclosures", "wrong", "empty", "prefix_of_right", "right_plus_suffix"},
           nonce : {"none", "same", "different"}, aud : {"none", "same", "different"},
-          iat : {"before_earliest", "at_earliest", "inside", "at_latest", "after_latest"},
-          window : {"both", "none_past", "none_future"}]
-\* rows that only differ in irrelevant places are pruned: when no window is configured, iat is either long past or far future
-ShapedK(r) == /\ (r.window = "none_past" => r.iat = "inside") /\ (r.window = "none_future" => r.iat = "inside")
-              /\ (r.kb = "absent" => (r.typ = "kb+jwt" /\ r.kid = "full" /\ r.method_id = "none" /\ r.signed_by = "holder_key"
-                                      /\ r.sd_hash = "right" /\ r.nonce = "none" /\ r.aud = "none" /\ r.iat = "inside" /\ r.window = "both"))
+          \* issuance instant of the key-binding JWT and which bounds the verifier configured; without an upper bound the
+          \* current time is the upper bound (long_past / far_future are decades away from any run of this check)
+          iat : {"long_past", "before_earliest", "at_earliest", "inside", "at_latest", "after_latest", "far_future"},
+          window : {"both", "earliest_only", "latest_only", "none"}]
+\* a missing key-binding JWT is one row
+ShapedK(r) == (r.kb = "absent" => (r.typ = "kb+jwt" /\ r.kid = "full" /\ r.method_id = "none" /\ r.signed_by = "holder_key"
+                                   /\ r.sd_hash = "right" /\ r.nonce = "none" /\ r.aud = "none" /\ r.iat = "inside" /\ r.window = "both"))
+              \* the iat x window table is explored in full for fully bound tokens; other rows keep iat inside a full window
+              /\ ((r.iat # "inside" \/ r.window # "both") =>
+                     (r.typ = "kb+jwt" /\ r.kid = "full" /\ r.method_id = "none" /\ r.signed_by = "holder_key" /\ r.sd_hash = "right"
+                      /\ r.nonce # "different" /\ r.aud # "different"))
+
+AfterEarliest(i) == i \in {"at_earliest", "inside", "at_latest", "after_latest", "far_future"}
+BeforeLatest(i)  == i \in {"long_past", "before_earliest", "at_earliest", "inside", "at_latest"}
+NotInFuture(i)   == i # "far_future"
+IatOk(r) == /\ (r.window \in {"both", "earliest_only"} => AfterEarliest(r.iat))
+            /\ (r.window \in {"both", "latest_only"} => BeforeLatest(r.iat))
+            /\ (r.window \in {"earliest_only", "none"} => NotInFuture(r.iat))
 
 KeyResolves(r) == r.method_id = "holder_key" \/ r.kid = "full"
 KbAccept(r) ==
@@ -62,8 +74,7 @@ KbAccept(r) ==
   /\ KeyResolves(r) /\ r.signed_by = "holder_key"
   /\ r.sd_hash = "right"
   /\ r.nonce # "different" /\ r.aud # "different"
-  /\ (r.window = "both" => r.iat \in {"at_earliest", "inside", "at_latest"})
-  /\ r.window # "none_future"             \* without a configured upper bound a token from the future is refused
+  /\ IatOk(r)
 
 Evaluate(r) == IF r.part = "cred" THEN [verdict |-> CredVerdict(r)]
                ELSE [verdict |-> IF KbAccept(r) THEN "accept" ELSE "reject"]
